@@ -75,6 +75,8 @@ class OdeArm(Arm):
         def case(draw):
             spec = draw(gen.model_spec({"max_types": 2, "max_ops": 2, "max_nodes": 3, "max_edges": 4, "expr_depth": 3,
                                         "depths": [0, 0, 1], "collision": False,
+                                        # (names that sympy uses for the temporaries of common sub-expressions)
+                                        "extra_names": draw(st.sampled_from([None, None, ["x0", "x1", "x2", "x3"]])),
                                         "funcs": draw(st.sampled_from([
                                             ["tanh", "sigmoid", "exp", "log", "tan"],
                                             ["tanh", "sigmoid", "exp", "log", "tan"],
@@ -197,6 +199,7 @@ class DdeArm(Arm):
         def case(draw):
             base = draw(gen.model_spec({"leak": True, "max_types": 2, "max_ops": 2, "max_nodes": 2, "max_edges": 3,
                                         "depths": [0, 0, 1], "expr_depth": 2, "collision": False, "max_alg": 1,
+                                        "extra_names": draw(st.sampled_from([None, None, ["x0", "x1", "x2", "x3"]])),
                                         "funcs": ["tanh", "sigmoid", "exp", "log", "tan"], "pow": False}))
             spec, pairs = add_past_terms(draw, gen.uniquify_init(base), mult_rate=3)
             rm = RefModel(spec)
